@@ -23,7 +23,7 @@
 (* schedule handed to it.  With GateGrain = FALSE every interleaving of    *)
 (* the instructions is explored.                                           *)
 (*                                                                         *)
-(* Templates (tpl): kv, ann, lm, ver, nj, nl, mut, cli, mcli, vox, annsync, wc *)
+(* Templates (tpl): kv, ann, lm, ver, nj, nl, mut, cli, mcli, vox, annsync, wc, verx *)
 (* (wc: three requests, explored with NProc = 3 and Only).  Work a request  *)
 (* leaves to other goroutines (block writers, the index goroutine of a      *)
 (* voxel write, the sync handler of a subscriber) is part of its program:   *)
@@ -253,6 +253,55 @@ VerExec(a, r, S, L) ==
 \* << Gate("start"), Do("v_chk"), Gate("datastore.newVersion"), Do("v_add") >>
 VerProg(r) == << Gate("start"), Acq({"newVersionMutex"}), Do("v_chk"), Gate("datastore.newVersion"), Do("v_add"), Rel({"newVersionMutex"}) >>
 VerObs(S) == [kids |-> {[b |-> b, n |-> S.kids[b]] : b \in {x \in VerBranches : S.kids[x] > 0}}]
+
+-----------------------------------------------------------------------------
+(* verx: repo-level requests on one version P of a repo that also holds a    *)
+(* committed sibling Q: new version / branch off P, version merge of P and  *)
+(* Q, commit of P, new data instance at P.  State: children of P per branch *)
+(* (kids), P committed (lkd), merge children of P (mk), commits of P that   *)
+(* were acknowledged (nc: each leaves a line in the node log), instances    *)
+(* that exist (has) and creations acknowledged per name (nd: each leaves a  *)
+(* line in the repo log).  nc and nd make an acknowledged request that a    *)
+(* sequential run would have refused visible in the state.                  *)
+VxNames == {"i1", "i2"}
+VxBranches == {"", "b1"}
+VxPreOf(l) == [kids |-> [b \in VxBranches |-> 0], lkd |-> l, mk |-> 0, nc |-> 0, nd |-> [x \in VxNames |-> 0], has |-> {}]
+VxPre == << VxPreOf(TRUE), VxPreOf(FALSE) >>
+VxCatalog == << [k |-> "newversion", b |-> "", who |-> 0], [k |-> "branch", b |-> "b1", who |-> 0],
+                [k |-> "merge", who |-> 0], [k |-> "commit", who |-> 0],
+                [k |-> "newdata", name |-> "i1", who |-> 0], [k |-> "newdata", name |-> "i2", who |-> 0] >>
+\* The programs follow the code as it is after these repairs (known_findings.json, status fixed); with a
+\* switch FALSE the program is the one the code had before.
+VxCommitRechecks == TRUE      \* concurrent-commits-both-acknowledged
+VxNewDataRechecks == TRUE     \* concurrent-newdata-same-name-both-acknowledged
+VxApply(r, S) ==
+    CASE r.k \in {"newversion", "branch"} ->
+              IF ~S.lkd \/ S.kids[r.b] > 0 THEN Out(S, <<>>, FALSE) ELSE Out([S EXCEPT !.kids[r.b] = @ + 1], <<>>, TRUE)
+      [] r.k = "merge"   -> IF ~S.lkd THEN Out(S, <<>>, FALSE) ELSE Out([S EXCEPT !.mk = @ + 1], <<>>, TRUE)
+      [] r.k = "commit"  -> IF S.lkd THEN Out(S, <<>>, FALSE) ELSE Out([S EXCEPT !.lkd = TRUE, !.nc = @ + 1], <<>>, TRUE)
+      [] r.k = "newdata" -> IF S.lkd \/ r.name \in S.has THEN Out(S, <<>>, FALSE)
+                            ELSE Out([S EXCEPT !.has = @ \cup {r.name}, !.nd[r.name] = @ + 1], <<>>, TRUE)
+VxExec(a, r, S, L) ==
+    CASE a = "v_chk" -> Out(S, L, S.lkd /\ S.kids[r.b] = 0)
+      [] a = "v_add" -> Out([S EXCEPT !.kids[r.b] = @ + 1], L, TRUE)
+      [] a = "m_chk" -> Out(S, L, S.lkd)
+      [] a = "m_add" -> Out([S EXCEPT !.mk = @ + 1], L, TRUE)
+      [] a = "c_chk" -> Out(S, L, ~S.lkd)
+      [] a = "c_set" -> IF VxCommitRechecks /\ S.lkd THEN Out(S, L, FALSE)
+                        ELSE Out([S EXCEPT !.lkd = TRUE, !.nc = @ + 1], L, TRUE)
+      [] a = "d_gate" -> Out(S, L, ~S.lkd)
+      [] a = "d_chk" -> Out(S, L, r.name \notin S.has)
+      [] a = "d_add" -> IF VxNewDataRechecks /\ r.name \in S.has THEN Out(S, L, FALSE)
+                        ELSE Out([S EXCEPT !.has = @ \cup {r.name}, !.nd[r.name] = @ + 1], L, TRUE)
+VxProg(r) ==
+    CASE r.k \in {"newversion", "branch"} ->
+              << Gate("start"), Acq({"newVersionMutex"}), Do("v_chk"), Gate("datastore.newVersion"), Do("v_add"), Rel({"newVersionMutex"}) >>
+      [] r.k = "merge"   -> << Gate("start"), Do("m_chk"), Acq({"newVersionMutex"}), Gate("datastore.merge"), Do("m_add"), Rel({"newVersionMutex"}) >>
+      [] r.k = "commit"  -> << Gate("start"), Do("c_chk"), Gate("datastore.commit"), Do("c_set") >>
+      [] r.k = "newdata" -> << Gate("start"), Do("d_gate"), Do("d_chk"), Gate("datastore.newData"), Do("d_add") >>
+VxObs(S) == [kids |-> {[b |-> b, n |-> S.kids[b]] : b \in {x \in VxBranches : S.kids[x] > 0}},
+             lkd |-> S.lkd, mk |-> S.mk, nc |-> S.nc, has |-> S.has,
+             nd |-> {[x |-> x, n |-> S.nd[x]] : x \in {y \in VxNames : S.nd[y] > 0}}]
 
 -----------------------------------------------------------------------------
 (* nj: one neuronjson annotation: fields -> [v, u] (v = 0: field absent),   *)
@@ -754,24 +803,30 @@ WcObs(S) == [val |-> S.val, der |-> S.der, com |-> S.com,
 Catalog(t) == CASE t = "kv" -> KvCatalog [] t = "ann" -> AnnCatalog [] t = "lm" -> LmCatalog [] t = "ver" -> VerCatalog
                 [] t = "nj" -> NjCatalog [] t = "nl" -> NlCatalog [] t = "mut" -> MutCatalog [] t = "cli" -> CliCatalog
                 [] t = "mcli" -> McCatalog [] t = "vox" -> VoxCatalog [] t = "annsync" -> AsCatalog [] t = "wc" -> WcCatalog
+                [] t = "verx" -> VxCatalog
 PreSeq(t, n) == CASE t = "kv" -> KvPre [] t = "ann" -> AnnPre [] t = "lm" -> <<LmPreOf(5, 5 + n)>> [] t = "ver" -> VerPre
                   [] t = "nj" -> NjPre [] t = "nl" -> NlPre [] t = "mut" -> MutPre [] t = "cli" -> CliPre
                   [] t = "mcli" -> McPre [] t = "vox" -> VoxPre [] t = "annsync" -> AsPre [] t = "wc" -> WcPre
+                  [] t = "verx" -> VxPre
 PreStates(t, n) == {PreSeq(t, n)[i] : i \in 1..Len(PreSeq(t, n))}
 Apply(t, r, S) == CASE t = "kv" -> KvApply(r, S) [] t = "ann" -> AnnApply(r, S) [] t = "lm" -> LmApply(r, S)
                     [] t = "ver" -> VerApply(r, S) [] t = "nj" -> NjApply(r, S) [] t = "nl" -> NlApply(r, S)
                     [] t = "mut" -> MutApply(r, S) [] t = "cli" -> CliApply(r, S)
                     [] t = "mcli" -> McApply(r, S) [] t = "vox" -> VoxApply(r, S) [] t = "annsync" -> AsApply(r, S) [] t = "wc" -> WcApply(r, S)
+                    [] t = "verx" -> VxApply(r, S)
 Exec(t, a, r, S, L) == CASE t = "kv" -> KvExec(a, r, S, L) [] t = "ann" -> AnnExec(a, r, S, L) [] t = "lm" -> LmExec(a, r, S, L)
                          [] t = "ver" -> VerExec(a, r, S, L) [] t = "nj" -> NjExec(a, r, S, L) [] t = "nl" -> NlExec(a, r, S, L)
                          [] t = "mut" -> MutExec(a, r, S, L) [] t = "cli" -> CliExec(a, r, S, L)
                          [] t = "mcli" -> McExec(a, r, S, L) [] t = "vox" -> VoxExec(a, r, S, L) [] t = "annsync" -> AsExec(a, r, S, L) [] t = "wc" -> WcExec(a, r, S, L)
+                         [] t = "verx" -> VxExec(a, r, S, L)
 Prog(t, r) == CASE t = "kv" -> KvProg(r) [] t = "ann" -> AnnProg(r) [] t = "lm" -> LmProg(r) [] t = "ver" -> VerProg(r)
                 [] t = "nj" -> NjProg(r) [] t = "nl" -> NlProg(r) [] t = "mut" -> MutProg(r) [] t = "cli" -> CliProg(r)
                 [] t = "mcli" -> McProg(r) [] t = "vox" -> VoxProg(r) [] t = "annsync" -> AsProg(r) [] t = "wc" -> WcProg(r)
+                [] t = "verx" -> VxProg(r)
 Obs(t, S) == CASE t = "kv" -> KvObs(S) [] t = "ann" -> AnnObs(S) [] t = "lm" -> LmObs(S) [] t = "ver" -> VerObs(S)
                [] t = "nj" -> NjObs(S) [] t = "nl" -> NlObs(S) [] t = "mut" -> MutObs(S) [] t = "cli" -> CliObs(S)
                [] t = "mcli" -> McObs(S) [] t = "vox" -> VoxObs(S) [] t = "annsync" -> AsObs(S) [] t = "wc" -> WcObs(S)
+               [] t = "verx" -> VxObs(S)
 \* locks an atomic step needs (instruction "dolk"): taken and released within the step
 DynLocks(t, a, r, S, L) == IF t = "vox" THEN VoxDynLocks(a, r, S, L) ELSE {}
 \* the full read set of the final state, for templates that have one (compared through lmm.Compare)
